@@ -148,6 +148,7 @@ type Exec struct {
 	Vids    map[string]string // symbolic -> server version id
 	Uids    map[string]string // symbolic -> server upload id
 	Host    string            // Host header to use ("" = default)
+	Addr    func(r *Req)      // addressing-mode rewrite applied to every request (C16)
 	Timeout time.Duration
 }
 
@@ -165,6 +166,7 @@ type Req struct {
 	Body   io.Reader
 	CLen   int64 // ContentLength field of the request (-1 unknown)
 	Host   string
+	Skip   bool // the operation cannot be expressed in this addressing mode
 }
 
 func newReq(method, path string) *Req {
@@ -249,7 +251,7 @@ func (x *Exec) setMeta(r *Req, meta map[string]string) {
 
 // Build translates an abstract operation into a request.
 func (x *Exec) Build(op Op) *Req {
-	b := op.S("b")
+	b := toBytes(op["b"]) // bucket names are strings, or byte sequences (C17)
 	k := x.Conc.Key(op.Key("k"))
 	switch op.S("op") {
 	case "CreateBucket":
@@ -473,5 +475,51 @@ func (x *Exec) Do(op Op) *Observed {
 	if r == nil {
 		return &Observed{NoReq: true}
 	}
+	// C16: the operation is addressed by a raw Host header and URL path
+	if op.Has("path") {
+		r.Path = op.S("path")
+		r.Host = op.S("host")
+	} else if x.Addr != nil {
+		x.Addr(r)
+		if r.Skip {
+			return &Observed{NoReq: true}
+		}
+	}
 	return x.Serve(r)
+}
+
+// hostStyle rewrites a path-style request into virtual-host style for base.
+func hostStyle(base string) func(r *Req) {
+	return func(r *Req) {
+		p := strings.TrimPrefix(r.Path, "/")
+		if p == "" {
+			// no bucket (ListBuckets): with a list of bases the base host itself
+			// falls back to path-style; plain host-bucket mode cannot express it
+			r.Host = base
+			r.Skip = strings.HasPrefix(base, "!")
+			r.Host = strings.TrimPrefix(base, "!")
+			return
+		}
+		base := strings.TrimPrefix(base, "!")
+		i := strings.IndexByte(p, '/')
+		bucket, rest := p, ""
+		if i >= 0 {
+			bucket, rest = p[:i], p[i:]
+		}
+		if strings.ContainsAny(bucket, ".") || bucket == "" {
+			return // not expressible as a single label: stay path-style
+		}
+		r.Host = bucket + "." + base
+		if rest == "" {
+			rest = "/"
+		}
+		r.Path = rest
+	}
+}
+
+// extraSlashes adds insignificant slashes before the bucket and at the end.
+func extraSlashes(r *Req) {
+	if r.Path != "/" {
+		r.Path = "//" + strings.TrimPrefix(r.Path, "/") + "/"
+	}
 }
